@@ -290,7 +290,9 @@ func (n *Node) serve(cn *conn) {
 }
 
 func (n *Node) sendVersion(cn *conn) error {
+	n.mu.Lock()
 	services := wire.ServiceFlag(n.Spec.Services)
+	n.mu.Unlock()
 	if services == 0 {
 		services = wire.SFNodeNetwork
 	}
@@ -529,6 +531,23 @@ func (n *Node) MineWhenReady(blocks []*Block, announce bool, maxWait time.Durati
 		time.Sleep(2 * time.Millisecond)
 	}
 	n.Mine(blocks, announce)
+}
+
+// SetServices changes the service bits announced in later handshakes.
+func (n *Node) SetServices(sv uint64) {
+	n.mu.Lock()
+	n.Spec.Services = sv
+	n.mu.Unlock()
+}
+
+// DropAll closes every open connection (the service will reconnect).
+func (n *Node) DropAll() {
+	n.mu.Lock()
+	conns := append([]*conn{}, n.conns...)
+	n.mu.Unlock()
+	for _, c := range conns {
+		n.closeConn(c, false)
+	}
 }
 
 // Stats of the node.
